@@ -268,6 +268,7 @@ func OpTermsSMT(name string, arity int) (decls, val, err string) {
 	d.Add(v, e)
 	var sb strings.Builder
 	sb.WriteString(PreludeSMT)
+	sb.WriteString(ArithDefsSMT)
 	sb.WriteString(ListDefs(v, e))
 	sb.WriteString(d.Text())
 	return sb.String(), v.String(), e.String()
